@@ -62,6 +62,28 @@ def check(ctx):
     from sa.pattern import has_stmt as _hs
     run.check(_hs("if len(_t) != 1:\n    return 'any'\nelse:\n    return _t.pop()", ft.node), 'R16i', ft.where, ft.qualname,
               "mixed or empty sample -> 'any'", 'a column with values of several types is declared with one of them')
+    # 3b. the rows of an in-memory source go out through the Resource whose schema was inferred from them: Resource.iter(keyed=True)
+    #     projects every row onto the inferred header list, so a later row with a key the first row lacks cannot carry a field the
+    #     descriptor does not declare.  Reading the source rows directly (and only casting the declared fields) lets such keys through.
+    run.rule('R11i', 'ITERABLE-PROJECTION: the stream iterable_loader adds is <the Resource it inferred>.iter(keyed=True ...): rows are '
+                     'rebuilt from the inferred header list, never taken from the source as they are')
+    il = ctx.repo.cls('dataflows.helpers.iterable_loader:iterable_loader')
+    prs = ctx.N(il.methods['process_resources'])
+    pdp = ctx.N(il.methods['process_datapackage'])
+    import ast as _a2
+    from sa.deps import pseudo as _ps
+    from sa.normalize import resolve_here as _rh
+    res_attrs = {_ps(a_.targets[0]) for a_ in _a2.walk(pdp.node) if isinstance(a_, _a2.Assign) and len(a_.targets) == 1
+                 and isinstance(a_.value, _a2.Call) and ctx.res.external_name(a_.value) in ('datapackage.Resource', 'datapackage.resource.Resource')}
+    ys = [y for y in _a2.walk(prs.node) if isinstance(y, _a2.Yield) and y.value is not None]
+    okp = bool(res_attrs) and len(ys) == 1
+    if okp:
+        v = _rh(ys[0].value)
+        okp = isinstance(v, _a2.Call) and isinstance(v.func, _a2.Attribute) and v.func.attr == 'iter' and _ps(v.func.value) in res_attrs \
+            and any(k.arg == 'keyed' and isinstance(k.value, _a2.Constant) and k.value.value is True for k in v.keywords)
+    run.check(okp, 'R11i', prs.where, prs.qualname, 'yield self.res.iter(keyed=True)',
+              'the rows of the added resource are not read through the inferred Resource: keys that are not in the inferred schema '
+              'reach the stream as undeclared fields')
     # 4. selected-only edits
     funcs = [fi for fi in package_steps(ctx.repo) if matcher_names(ctx.repo, ctx.res, fi)]
     for c in processor_classes(ctx.repo, ctx.res):
